@@ -59,7 +59,8 @@ CLAIMED['C14'] = dict(
         "rejected without change when frozen / duplicate), by the unknown-spec setters and freeze; that "
         "get_macro/environment/specials_spec return the definition of the first category in order that defines the "
         "name, else the unknown spec; that test_for_specials returns a longest match over all categories (two nested "
-        "loop invariants); that extended_with returns a new frozen database satisfying the invariant with the "
+        "loop invariants); that _get_new_autogen_category hands back an unused name with the internal prefix without touching the "
+        "database; that extended_with returns a new frozen database satisfying the invariant with the "
         "documented view while leaving its parent's category list, dictionaries and chain maps unchanged; and that "
         "filtered_context never raises, returns a new database satisfying the invariant whose category order is exactly "
         "the kept sub-sequence of the parent's (loop invariant over a counting function K and its inverse, with the "
@@ -71,7 +72,7 @@ CLAIMED['C14'] = dict(
    note=NOTE + "; A-DB: dict(...) of a comprehension over specs is a fresh dictionary of unknown content, ChainMap looks "
         "keys up through .maps in order, a specials spec is stored under its own specials_chars; every dictionary of a database stores each spec under the spec's own "
         "name (so that re-keying d.values() gives d's content); not covered: iter_*_specs, "
-        "_get_new_autogen_category (assumed to return an unused internal name), 'first among equally long' specials")
+        "'first among equally long' specials")
 
 CLAIMED['C17'] = dict(
    text="Unbounded proof that a state derived by sub_context() satisfies PS_inv (every cached table equals the value a "
@@ -84,7 +85,9 @@ CLAIMED['C17'] = dict(
         "only public fields and tables covered by PS_inv. The receiver of sub_context may itself be a derived state (the child "
         "records the receiver, not an ancestor, as the state its changed keys are relative to), and a syntactic frame obligation "
         "per table builder shows that the recompute branch assigns only its own tables (no in-place update of a field value "
-        "or of a local alias of one: those objects are shared with the state it was derived from).",
+        "or of a local alias of one: those objects are shared with the state it was derived from); requested values may be None "
+        "(a delimiter list given as None means the default list); ParsingStateDeltaChained applies its deltas one after the "
+        "other, each to the state its predecessor produced (chains of up to three entries).",
    ref="DESIGN.md section 5, C17",
    note=NOTE + "; the recompute code itself is uninterpreted (a change there affects derived and fresh states alike); "
         "'behaves identically' follows from equal tables + the reader scan, stated not mechanised")
@@ -188,7 +191,8 @@ CLAIMED['C12'] = dict(
         "indented content) with the in-equations policy pushed for the contents and restored afterwards (frame); discarded macros "
         "and environments contribute ''; node_to_text sends every math node to math_node_to_text; fmt_equation_environment is the "
         "math switch and the table obligation shows every math environment of the walker database is rendered by it. "
-        "A dedicated unit shows that fmt_equation_environment hands the node to math_node_to_text in EVERY math mode. "
+        "A dedicated unit shows that fmt_equation_environment hands the node to math_node_to_text in EVERY math mode, another that "
+        "the matrix renderer hands every body node that is not a separator (comments included) to nodelist_to_text. "
         "LatexExpressionParser.parse: nodes skipped before the end of the input are handed back; the clause that the comments it "
         "skips before a found expression stay in the tree is refuted on the tree as it stands (known finding, comment between a "
         "macro and its argument); so is the clause that a replacement string renders every argument (known finding: a comment "
